@@ -239,8 +239,8 @@ fn families(a: &Args) -> Vec<Family> {
         list_family("digraph-lists", false, ListFam::new(3, if t { 4 } else { 3 }, true)),
         simple_family("ungraphs", false, SimpleFam::new(0..=4, false, true)),
         list_family("ungraph-lists", false, ListFam::new(3, 4, false)),
-        simple_family("digraphs5-loopfree", true, SimpleFam::new(5..=5, true, false)),
-        simple_family("ungraphs5", true, SimpleFam::new(5..=5, false, true)),
+        simple_family("digraphs5-loopfree", false, SimpleFam::new(5..=5, true, false)),
+        simple_family("ungraphs5", false, SimpleFam::new(5..=5, false, true)),
         list_family("digraph-lists4", true, ListFam::new(4, 4, true)),
         list_family("digraph-lists3-m5", true, ListFam::new(3, 5, true)),
         list_family("ungraph-lists4", true, ListFam::new(4, 4, false)),
